@@ -28,6 +28,7 @@ type Rec struct {
 	// length of a message (C03's documented exemption for messages without
 	// Content-Length whose body is "the rest of the buffer").
 	MaskBody bool
+	MaxEnd   int // largest Offs+Len of any non-empty field recorded
 	pfx      string
 }
 
@@ -38,6 +39,7 @@ func (r *Rec) Reset(base, buflen int) {
 	r.BufLen = buflen
 	r.OOB = ""
 	r.pfx = ""
+	r.MaxEnd = 0
 }
 
 func (r *Rec) In(p string) string {
@@ -80,6 +82,9 @@ func (r *Rec) Pos(label string, o int) { r.Val(label, int64(o)-int64(r.Base)) }
 func (r *Rec) Fld(label string, f sipsp.PField) {
 	if int(f.Offs)+int(f.Len) > r.BufLen && r.OOB == "" {
 		r.OOB = fmt.Sprintf("%s%s={Offs:%d Len:%d} buflen=%d", r.pfx, label, f.Offs, f.Len, r.BufLen)
+	}
+	if f.Len != 0 && int(f.Offs)+int(f.Len) > r.MaxEnd {
+		r.MaxEnd = int(f.Offs) + int(f.Len)
 	}
 	if f.Len == 0 {
 		r.V = append(r.V, EmptyFld, 0)
